@@ -195,7 +195,56 @@ def run(ctx: Ctx, tier: str) -> Result:
             res.fail(Finding("C03.ACT", worker.qname, c, worker.loc(c), "process() is not control-dependent on can_trigger() of the same context"))
     # nothing is processed when the matched list is empty: the action loop is the only place creating contexts (checked above)
 
+    # processing of the matched actions depends on nothing but the installed / matched lists being non-empty
+    import re
+    for c in ac_calls:
+        lps = [l for l in paths.enclosing_loops(p, c, worker) if isinstance(l, ast.For)]
+        if not lps:
+            continue
+        for test, pol in paths.conditions(p, lps[0], worker):
+            subjects = set()
+            for n in ast.walk(test):
+                if isinstance(n, (ast.Name, ast.Attribute)) and not isinstance(p.parent_of(n), ast.Attribute) and norm(n) != "len":
+                    subjects.add(norm(n))
+            ok_sub = True
+            for sname in subjects:
+                e = ast.parse(sname, mode="eval").body
+                for x in ast.walk(e):
+                    ctx.prog.owner[id(x)] = worker
+                ctx._extra.setdefault("keepalive", []).append(e)
+                ts = t.type_of(e, worker)
+                is_list = any(tt[0] == "seq" and any(el[0] == "inst" and (el[1].endswith(".Trigger") or el[1].endswith(".LocationAction")) for el in tt[1]) for tt in ts)
+                if not (is_list or sname == macc):
+                    ok_sub = False
+            if ok_sub:
+                res.ok("C03.ACT", {"action loop reached whenever": "%s is %s" % (norm(test), pol)})
+            else:
+                res.fail(Finding("C03.ACT", worker.qname, test, worker.loc(test),
+                                 "whether the matched actions are processed also depends on `%s` (handler state, not the match): a tracepoint "
+                                 "whose location was reached is silently skipped" % norm(test)))
+
     # ---------------- MERGE
+    # the merge key (location id) must determine everything at_location compares, else different locations are merged
+    for cname in ("LineLocation", "FunctionLocation"):
+        c_ = p.cls(TRIG + "." + cname)
+        atl, idg = c_.own_method("at_location"), c_.own_method("id")
+        need(atl is not None and idg is not None, "%s: at_location / id not found" % cname)
+        idt = term(ctx, idg, "self.id")
+        fields_id = set(re.findall(r"@self\.(_\w+)", idt))
+        tb_ = Table(ctx, atl)
+        fields_at = set()
+        for r_ in tb_.rows:
+            for cnd, _ in r_.conds:
+                fields_at |= set(re.findall(r"@self\.(_\w+)", norm(cnd)))
+            if r_.result is not None:
+                fields_at |= set(re.findall(r"@self\.(_\w+)", norm(r_.result)))
+        missing = sorted(fields_at - fields_id)
+        if not missing and fields_id:
+            res.ok("C03.MERGE", {"%s.id covers the matched fields" % cname: sorted(fields_at)})
+        else:
+            res.fail(Finding("C03.MERGE", idg.qname, idt, idg.loc(),
+                             "%s.id (the key tracepoints are merged by) does not include %s which at_location compares: tracepoints on "
+                             "different locations are merged into one and act at the wrong place" % (cname, missing or "any field")))
     cr = p.func("deep.grpc.convert_response")
     stores = [n for n in t.nodes_in(cr, ast.Assign) if isinstance(n.targets[0], ast.Subscript)]
     merges = [c for c in t.calls_in(cr) if any(x.name == "merge_actions" for x in t.resolve_call(c, cr).repo)]
